@@ -130,7 +130,7 @@ impl BRC20ProgEngine {
     }
 
     pub fn mine_blocks(&self, mut block_count: u64, timestamp: u64) -> Result<(), Box<dyn Error>> {
-        self.require_no_waiting_txes()?;
+        self.require_no_open_block()?;
 
         if block_count == 0 {
             return Ok(());
@@ -300,6 +300,9 @@ impl BRC20ProgEngine {
                             op_return_tx_id,
                         )
                     })?;
+                    // The pool entry is a write of the block under construction
+                    self.last_block_info
+                        .write_fn_unchecked(|block_info| block_info.has_parked_txes = true);
                 }
                 return Ok(Vec::new());
             }
@@ -440,6 +443,7 @@ impl BRC20ProgEngine {
                     log_index: 0,
                     start_time: block_info.start_time,
                     total_processing_time: None,
+                    has_parked_txes: block_info.has_parked_txes,
                 };
             });
         }
@@ -958,13 +962,13 @@ impl BRC20ProgEngine {
     }
 
     pub fn commit_to_db(&self) -> Result<(), Box<dyn Error>> {
-        self.require_no_waiting_txes()?;
+        self.require_no_open_block()?;
 
         self.db.write_fn(|db| db.commit_changes())
     }
 
     pub fn reorg(&self, latest_valid_block_number: u64) -> Result<(), Box<dyn Error>> {
-        self.require_no_waiting_txes()?;
+        self.require_no_open_block()?;
 
         let current_block_height = self.get_latest_block_height()?;
         if latest_valid_block_number > current_block_height {
@@ -978,6 +982,18 @@ impl BRC20ProgEngine {
         }
 
         self.db.write_fn(|db| db.reorg(latest_valid_block_number))
+    }
+
+    /// The block under construction has no transaction and no parked pool entry
+    fn require_no_open_block(&self) -> Result<(), Box<dyn Error>> {
+        let (waiting_tx_count, has_parked_txes) = {
+            let info = self.last_block_info.read();
+            (info.waiting_tx_count, info.has_parked_txes)
+        };
+        if waiting_tx_count != 0 || has_parked_txes {
+            return Err("There are waiting txes, either finalise the block or clear caches".into());
+        }
+        Ok(())
     }
 
     fn require_no_waiting_txes(&self) -> Result<(), Box<dyn Error>> {
